@@ -22,9 +22,9 @@
 
 import random
 from collections import deque
-from typing import TYPE_CHECKING, Iterable
+from typing import TYPE_CHECKING, Dict, Iterable
 
-from .._dns import DNSRecord
+from .._dns import DNSPointer, DNSRecord
 from .._utils.time import current_time_millis, millis_to_seconds
 from .answers import (
     MULTICAST_DELAY_RANDOM_INTERVAL,
@@ -102,6 +102,30 @@ class MulticastOutgoingQueue:
             # a withdrawn record can also ride along as an additional of an answer that stays
             for additionals in pending.answers.values():
                 additionals.difference_update(withdrawn)
+
+    def async_remove_service_records(self, key: str, server_key: str, shared: Dict[DNSRecord, DNSRecord]) -> None:
+        """Remove what is queued for a service that was withdrawn or replaced, whatever its rdata and TTL.
+
+        The records cannot always be named by value: a ServiceInfo that was
+        changed in place no longer knows the records it had. Everything under
+        the instance name (SRV, TXT, NSEC), every pointer to it, and every
+        record of its host goes, except the host's records that another
+        service still advertises with the same TTL.
+        """
+
+        def gone(record: DNSRecord) -> bool:
+            if record.key == key or (isinstance(record, DNSPointer) and record.alias_key == key):
+                return True
+            if record.key != server_key:
+                return False
+            kept = shared.get(record)
+            return kept is None or kept.ttl != record.ttl
+
+        for pending in self.queue:
+            for record in [record for record in pending.answers if gone(record)]:
+                del pending.answers[record]
+            for additionals in pending.answers.values():
+                additionals.difference_update([record for record in additionals if gone(record)])
 
     def async_ready(self) -> None:
         """Process anything in the queue that is ready."""
